@@ -122,7 +122,7 @@ theorem trunc_run {cap mc : Nat} {Wk Z W0 L0 : Bytes} (K : TCtx cap mc Wk Z W0) 
     obtain ⟨hsame, hph, hsc, hstop, hmx, hsg, hwk⟩ := prePoll_same c n hsegs
     have hst0 := hst.cong hph hstop hsame
     obtain ⟨c', r, hh, hfr, ho⟩ := trunc_poll K hst0 (hsame.em.trans hem)
-    have hpoll := hh.poll (F := 100000) (by rw [hsame.input]; exact hlen)
+    have hpoll := hh.pollT (by rw [hsame.input]; exact hlen)
     have hans0 : ans (prePoll c n none).env.tr = ans c.env.tr := by unfold ans; rw [hsame.rd, hsame.wr]
     rw [runTask_succ, hpoll]
     rcases ho with ⟨rfl, _, _, ha⟩ | ⟨rfl, h1, h2, h3⟩
@@ -135,7 +135,7 @@ theorem trunc_run {cap mc : Nat} {Wk Z W0 L0 : Bytes} (K : TCtx cap mc Wk Z W0) 
     obtain ⟨hsame, hph, hsc, hstop, hmx, hsg, hwk⟩ := prePoll_same c n hsegs
     have hst0 := hst.cong hph hstop hsame
     obtain ⟨c', r, hh, hfr, ho⟩ := trunc_poll K hst0 (hsame.em.trans hem)
-    have hpoll := hh.poll (F := 100000) (by rw [hsame.input]; exact hlen)
+    have hpoll := hh.pollT (by rw [hsame.input]; exact hlen)
     have hans0 : ans (prePoll c n none).env.tr = ans c.env.tr := by unfold ans; rw [hsame.rd, hsame.wr]
     rw [runTask_succ, hpoll]
     rcases ho with ⟨rfl, ⟨F', hst'⟩, hw, ha⟩ | ⟨rfl, h1, h2, h3⟩
@@ -181,7 +181,7 @@ theorem trunc_run_start {cap mc : Nat} {Wk Z W0 : Bytes} (K : TCtx cap mc Wk Z W
       hstop1, hsame.ben hb, hremle, Or.inr ⟨_, rfl, by show c0.env.tr.wlog ++ _ = _; rw [hsame.wlog]⟩⟩
   obtain ⟨c', r, hh, hfr, ho⟩ := trunc_poll K hst (hsame.em.trans hem)
   have hh' := Halts.of_steps (Steps.one hstep') hh
-  have hpoll := hh'.poll (F := 100000) (by
+  have hpoll := hh'.pollT (by
     show 1 + (2 * c0.env.tr.input.length + 4) ≤ 100000
     rw [hsame.input]; omega)
   have hans0 : ans c0.env.tr = ans c.env.tr := by unfold ans; rw [hsame.rd, hsame.wr]
